@@ -320,6 +320,19 @@ type RNode struct {
 	BlockRound  func(ctx context.Context, h uint64) // optional: runs inside the new-round callback
 	ping        *messagesfactory.MessageFactory
 	pingNo      uint64
+	syncNo      uint64
+}
+
+// Sync calls UpdateState the way hosts do: every other call with a request-scoped context that is cancelled as soon as the
+// call has returned (the usual `ctx, cancel := ...; defer cancel()`), the others with the node's long-lived context. Whether
+// the block takes effect must not depend on what happens to the caller's context after UpdateState returned nil.
+func (nd *RNode) Sync(b interfaces.Block, proof []byte) error {
+	if atomic.AddUint64(&nd.syncNo, 1)%2 == 0 {
+		return nd.ML.UpdateState(nd.ctx, b, proof)
+	}
+	ctx, cancel := context.WithCancel(nd.ctx)
+	defer cancel()
+	return nd.ML.UpdateState(ctx, b, proof)
 }
 
 type Opts struct {
